@@ -43,12 +43,39 @@ THEOREMS = [
 SMALL_OPS = ["set 0/ka97 n1", "set 0/kc98 sa120", "set 0/kd97.97 sb121", "set 0/kc97 z", "rem 0 97 b", "rmi 0 0 a", "cmp 0",
              "set 0/ia1 N", "app 0 sb120", "ins 0 98 sa49", "set 0/kd98/ka97 n2", "cpy 1 0 a", "cpy 1/ka97 0 b", "mrg 0 1 b",
              "mrg 0 1 a", "apv 0 1 b", "apv 0 1 a", "mov 0 1 a", "apo 0 1 a", "apa 0 1 b", "obj 0 1 b", "arr 0 1 a", "inm 0 98 1",
-             "typ 0 3", "set 1/ia2 se97", "app 1 T", "rst 0", "ptr 0 -", "adp 0 1"]
+             "typ 0 3", "set 1/ia2 se97", "app 1 T", "rst 0", "ptr 0 -", "adp 0 1",
+             # sources that are empty but own storage, for every consuming operation
+             "rsv 1 2 3", "rsv 1 3 2", "clr 1", "clr 0", "rsv 0 2 1", "set 1/ka97 sa120", "inm 0 97 1/ka97", "mov 0/ka98 1 b"]
+
+
+# directed: every consuming (and, for contrast, every copying) two-operand operation with a source that is empty
+# but owns storage (Size() == 0, Capacity() != 0: reserved, or filled and then cleared; the empty string built from
+# text owns its terminator block), onto every kind of target
+EMPTY_SOURCES = [["rsv 1 2 3"], ["rsv 1 3 2"], ["set 1/ka97 sa120", "set 1/ka98 n1", "clr 1"], ["app 1 sa120", "app 1 n1", "clr 1"],
+                 ["set 1 sa-"], ["rsv 1/ka97 2 4"], ["rsv 1/ia0 3 3"]]
+TARGETS = [[], ["set 0/ka97 n1"], ["app 0 sa121"], ["set 0 n5"], ["rsv 0 2 2"], ["rsv 0 3 1"], ["set 0/ka97 n1", "set 0/ka98 n2"]]
+TWO_OPERAND = ["mov 0 1 a", "mov 0 1 b", "mov 0/ka99 1 a", "apv 0 1 a", "apv 0/ka99 1 a", "mrg 0 1 a", "inm 0 99 1", "inm 0 97 1",
+               "cpy 0 1 a", "cpy 0 1 b", "apv 0 1 b", "mrg 0 1 b", "apo 0 1 a", "apa 0 1 b", "obj 0 1 a", "arr 0 1 b",
+               "mov 0 1/ka97 a", "apv 0 1/ka97 a", "mrg 0 1/ia0 a", "inm 0 98 1/ia0"]
+
+
+def directed_cases():
+    out = []
+    for src in EMPTY_SOURCES:
+        for tgt in TARGETS:
+            for op in TWO_OPERAND:
+                out.append(tgt + src + [op])
+                out.append(tgt + src + [op, "cmp 0", "clr 0"])
+    return out
 
 
 def ledger_cases(ctx):
     rng = ctx.rng
     lines = []
+    for ops in directed_cases():
+        lines.append(_value.line_of(ops, cmd="valled"))
+    for ops in directed_cases()[::4]:
+        lines.append(_value.line_of(ops))
     for _ in range(1500 if not ctx.thorough else 20000):
         lines.append(_value.line_of(_value.rand_sequence(rng, rng.randrange(1, 14))))
     # GroupBy (scratch stream and key pointer handling), including elements without the key
